@@ -43,7 +43,7 @@ def run(rep, tier, driver):
                 nm = c + ring
                 names += [nm, nm + " a", nm + " b", "D-" + nm, "L-" + nm]
         if c.upper() + "-OL" in rows["o"]:
-            names.append(c + "-ol")
+            names += [c + "-ol", "D-" + c + "-ol", "L-" + c + "-ol"]
         names.append(c)
     names = sorted(set(names))
     smi = dict(zip(names, pmap(_smi, names, chunk=4)))
@@ -115,6 +115,38 @@ def run(rep, tier, driver):
                 if f != FORMULA_OF[c]:
                     rep.violation("table-row", {"iupac": nm, "clause": "class formula"}, {"formula": f}, {"formula": FORMULA_OF[c]}, key="formula:" + nm)
             canon_by_form[ring].setdefault(chem.canon(u), []).append(c)
+    # alditols x series: the prefix acts on the open chain as on the rings (own series = identity, opposite = mirror image),
+    # and ring-opening commutes with the prefix
+    for c in codes:
+        key = c.upper()
+        if key + "-OL" not in rows["o"]:
+            continue
+        ringrow = rows["p"].get(key) or rows["f"].get(key)
+        if ringrow is None or ringrow["isomer"] not in (0, 1):
+            continue
+        own, opp = ("D-", "L-") if ringrow["isomer"] == 0 else ("L-", "D-")
+        ol, so, sp = smi.get(c + "-ol"), smi.get(own + c + "-ol"), smi.get(opp + c + "-ol")
+        rep.case(canon=[c, "alditol-series"], nontrivial=bool(ol))
+        if not ol:
+            continue
+        col = chem.canon(ol)
+        if not so or chem.canon(so) != col:
+            rep.violation("table-row", {"iupac": own + c + "-ol", "clause": "own series (alditol)"}, {"result": chem.canon(so) if so else so}, {"result": col}, key="own-series-ol:" + c)
+        mir = chem.mirror(ol)
+        if not sp or chem.canon(sp) != mir:
+            rep.violation("table-row", {"iupac": opp + c + "-ol", "clause": "opposite series (alditol)"}, {"result": chem.canon(sp) if sp else sp}, {"result": mir, "note": "mirror image"},
+                          key="mirror-ol:" + c)
+        for ring in ("p", "f"):
+            if key in rows[ring]:
+                for pre in (own, opp):
+                    ringform = smi.get(pre + c + ring)
+                    want = smi.get(pre + c + "-ol")
+                    red = chem.reduce_to_alditol(ringform) if ringform else None
+                    rep.case(canon=[c, ring, pre, "alditol-series-reduce"], nontrivial=bool(red))
+                    if red is not None and want and chem.canon(want) != red:
+                        rep.violation("table-row", {"iupac": pre + c + ring, "clause": "ring-opening with prefix", "alditol": pre + c + "-ol"},
+                                      {"reduced_ring_form": red, "alditol": chem.canon(want)}, "ring-opening reduction of the prefixed ring form equals the prefixed alditol",
+                                      key="alditol-prefix:%s%s%s" % (pre, c, ring))
     for ring, d in canon_by_form.items():
         for cs, group in d.items():
             rep.case(canon=["distinct", ring, cs], nontrivial=len(group) > 0)
